@@ -732,6 +732,18 @@ func reference(h history) *refRun {
 	return r
 }
 
+// childOutputAtEndOfRun: is a print | cmd stream whose command writes to the shared stdout still
+// open when the run ends (normally, by exit, or by an error)?
+func childOutputAtEndOfRun(h history) bool {
+	r := reference(h)
+	for id, st := range r.outs {
+		if sp := specOf(id); st.cmd && (sp.Stdout != "" || sp.Echo) {
+			return true
+		}
+	}
+	return false
+}
+
 // ---------------------------------------------------------------- generators
 
 var alphabet = "abcdefghijklmnopqrstuvwxyz0123456789"
@@ -1416,6 +1428,15 @@ func main() {
 	var kept []string
 	slow := time.Duration(0)
 	for i, h := range hs {
+		if h.Mode != "osfile" && childOutputAtEndOfRun(h) {
+			// a child that writes to the shared stdout is only closed by closeAll: if os/exec's
+			// WaitDelay (250 ms after the child's exit) runs out on an overloaded machine its last
+			// output is dropped and closeAll discards the diagnostic, so nothing would tell.  With
+			// Output = *os.File there is no copying goroutine and the case is compared.
+			rep.Unmodelled++
+			rep.Count("unmodelled:child-output-at-closeAll")
+			continue
+		}
 		if model[i] == "unmod" {
 			// timing decides the outcome (a child and the program use Output at the same time,
 			// or a child is killed by SIGPIPE): not run, counted
